@@ -377,7 +377,13 @@ func (g *gen) keysBiased(max int) []string {
 	if len(g.ctxKeys) > 0 && g.r.chance(2, 3) {
 		pool = append(append([]string{}, g.ctxKeys...), "zz", "a")
 	}
-	return g.strList(pool, max)
+	out := g.strList(pool, max)
+	if g.r.chance(1, 6) {
+		// the empty string is what key accessors return for a missing kind: a list naming it
+		// must still not match a context that lacks the kind
+		out = append(out, "")
+	}
+	return out
 }
 
 func (g *gen) form() string {
